@@ -34,6 +34,7 @@ property theorems.
 import LinVerif.Lemmas.C05Live
 import LinVerif.Lemmas.C05Meta
 import LinVerif.Lemmas.C05MetaBridge
+import LinVerif.Lemmas.C05IndexPos
 import LinVerif.Generated.C05
 import LinVerif.Generated.C05Meta
 
@@ -846,6 +847,115 @@ theorem meta_threads_refine_sequential (st : St) :
 
 end MetaWriters
 
+/-! ## round 12: WHICH index page object an append stores its item through
+
+`persistMetaOfMessage` stores the item through the object `q.indexPage`; Get / GC / NewQueue look
+the item up in the page computed from the sequence. Model/C05IndexPos.lean keeps the object apart
+from `q.indexPageIndex`, takes the switch test as a parameter and has SetAppendedSeq (replica
+ResetReplicaIndex / ResetAppendIndex) and Close+NewQueue as operations. -/
+
+section IndexPosition
+open LinVerif.Queue.IndexPos
+
+/-- the switch test found in /repo's source now (first if-condition of persistMetaOfMessage) -/
+def generatedSw : Option Sw := decodeSw C05.persistSwitchCond
+
+/-- every assignment of initDataPageIndex, in source order -/
+def expectedInitDataPageIndexAssigns : List String :=
+  ["q.dataPageIndex = 0", "q.messageOffset = 0", "q.dataPage, err = q.dataPageFct.AcquirePage(0)", "q.indexPage, err = q.indexPageFct.AcquirePage(0)", "previousSeq := q.appendedSeq.Load()", "q.indexPageIndex = previousSeq / indexItemsPerPage", "q.indexPage, err = q.indexPageFct.AcquirePage(q.indexPageIndex)", "indexOffset := int((previousSeq % indexItemsPerPage) * indexItemLength)", "q.dataPageIndex = int64(q.indexPage.ReadUint64(indexOffset + queueDataPageIndexOffset))", "previousMessageOffset := q.indexPage.ReadUint32(indexOffset + messageOffsetOffset)", "previousMessageLength := q.indexPage.ReadUint32(indexOffset + messageLengthOffset)", "q.messageOffset = int(previousMessageOffset + previousMessageLength)", "q.dataPage, err = q.dataPageFct.AcquirePage(q.dataPageIndex)"]
+
+/-- the regenerated positioning code: the switch test, every condition and assignment of
+persistMetaOfMessage (object and number are assigned together, after AcquirePage succeeded), the
+assignments of the object / the number in initDataPageIndex, the complete list of functions of
+queue.go that assign either of them, and the second caller of SetAppendedSeq
+(replica/replicator.go ResetAppendIndex, `idx - 1`) -/
+theorem index_switch_tie :
+    generatedSw = some currentSw ∧
+    C05.persistConds = ["indexPageIndex != q.indexPageIndex", "err != nil", "err != nil"] ∧
+    C05.persistAssigns = ["seq := q.appendedSeq.Load() + 1", "indexPageIndex := seq / indexItemsPerPage",
+      "err := q.indexPage.Sync()", "indexPage, err := q.indexPageFct.AcquirePage(indexPageIndex)",
+      "q.indexPage = indexPage", "q.indexPageIndex = indexPageIndex",
+      "indexOffset := int((seq % indexItemsPerPage) * indexItemLength)"] ∧
+    C05.initDataPageIndexConds.head? = some "q.appendedSeq.Load() == SeqNoNewMessageAvailable" ∧
+    C05.initDataPageIndexAssigns = expectedInitDataPageIndexAssigns ∧
+    C05.indexPageWriters = ["persistMetaOfMessage", "initDataPageIndex"] ∧
+    C05.resetAppendIndexCalls = ["r.channel.ConsumerGroup.Queue", "r.channel.ConsumerGroup.Queue().SetAppendedSeq"] ∧
+    C05.resetAppendIndexArgs = ["idx - 1"] := by
+  refine ⟨by simp [generatedSw, decodeSw, C05.persistSwitchCond], ?_⟩
+  decide
+
+/-- the configured page size (`wal.page-size`, NewQueue's argument) is looked at by NewQueue only (it
+creates the data factory with it, `meta_layout_tie`): Put's size limit and alloc's roll-over use the
+constant (`guards_tie`), so the model has no page-size parameter. The harness opens and reopens
+with different sizes. -/
+theorem page_size_config_tie : C05.pageSizeUsers = ["NewQueue"] := by decide
+
+theorem currentSw_ok (P : Nat) : SwOK P currentSw := by
+  intro ipg idx slot _ hne
+  simp [currentSw, hne]
+
+/-- CHARACTERISATION of the switch test, for any number `P > 0` of items per index page: every
+history of appends, resets onto any target ≥ -1 and close/reopen stores every item in the page
+(and slot) computed from its sequence IF AND ONLY IF the test fires whenever the page of the new
+sequence differs from `q.indexPageIndex`. (⇐ by the invariant "held object = indexPageIndex";
+⇒ by an explicit history for every (page, held page, slot) on which the test stays silent.) -/
+theorem index_switch_exact (P : Nat) (hP : 0 < P) (sw : Sw) :
+    (∀ ops : List POp, (∀ op ∈ ops, op.wf) →
+        LandsRight P (runPos P sw (initPos P (-1)) ops).2) ↔ SwOK P sw := by
+  constructor
+  · intro h ipg idx slot hslot hne
+    cases hsw : sw ipg idx slot with
+    | true => rfl
+    | false =>
+      exact absurd (h _ (witness_wf P ipg idx slot)) (bad_switch_witness P hP sw ipg idx slot hslot hne hsw)
+  · intro h ops hw
+    exact (run_lands P hP sw h ops _ (init_inv P (-1) (by omega)) hw).2
+
+/-- the current source: after EVERY history (resets across any number of index pages, forwards and
+backwards, reopen anywhere) the held object is the page of `q.indexPageIndex`, and every append
+stored its item at (seq / 262144, seq % 262144) — where Get, GC and NewQueue read it -/
+theorem index_store_page_follows_seq (ops : List POp) (hw : ∀ op ∈ ops, op.wf) :
+    let r := runPos indexItemsPerPage currentSw (initPos indexItemsPerPage (-1)) ops
+    r.1.held = r.1.idx ∧ LandsRight indexItemsPerPage r.2 := by
+  have := run_lands indexItemsPerPage (by decide) currentSw (currentSw_ok _) ops _
+    (init_inv indexItemsPerPage (-1) (by omega)) hw
+  exact ⟨this.1.1, this.2⟩
+
+/-- the same for whatever switch test decodes from the regenerated condition text: fails by name on
+a tree whose test is another one -/
+theorem index_switch_generated :
+    ∀ sw, generatedSw = some sw →
+      ∀ ops : List POp, (∀ op ∈ ops, op.wf) →
+        LandsRight indexItemsPerPage (runPos indexItemsPerPage sw (initPos indexItemsPerPage (-1)) ops).2 := by
+  intro sw hsw
+  have h : some sw = some currentSw := hsw ▸ index_switch_tie.1
+  cases h
+  exact fun ops hw => (index_store_page_follows_seq ops hw).2
+
+/-- bridge to Model/Queue.lean (whose `persistStores` stores into the computed page): Put,
+SetAppendedSeq and initDataPageIndex move (`indexPageIndex`, appended) exactly as the position model
+does under the current test, and the page/slot the position model's object receives the item in is
+the page/slot `persistStores` writes -/
+theorem index_pos_refines_queue_model (st : St) :
+    (∀ m : Msg, ¬ m.len > dataPageSize →
+      posOf (put st m).1.q = (persistPos indexItemsPerPage currentSw (posOf st.q)).1) ∧
+    (persistPos indexItemsPerPage currentSw (posOf st.q)).2 =
+      ⟨nextSeq st.q, nextSeq st.q / indexItemsPerPage, nextSeq st.q % indexItemsPerPage⟩ ∧
+    (∀ s : Int, posOf (setAppended st s).q =
+      (stepPos indexItemsPerPage currentSw (posOf st.q) (.reset s)).1) ∧
+    (∀ app ack : Int, posOf (initDataPageIndex st.mem app ack).q = initPos indexItemsPerPage app) :=
+  ⟨put_pos st, persist_store st.q, setAppended_pos st, init_pos st.mem⟩
+
+/-- non-vacuity: three appends, forward reset into index page 1 (not onto a page boundary), append,
+backward reset into page 0, append, reopen, append, reset exactly before a boundary, append -/
+example :
+    (runPos indexItemsPerPage currentSw (initPos indexItemsPerPage (-1))
+      [.put, .put, .put, .reset 300000, .put, .reset 5, .put, .reopen, .put, .reset 524287, .put]).2 =
+      [⟨0, 0, 0⟩, ⟨1, 0, 1⟩, ⟨2, 0, 2⟩, ⟨300001, 1, 37857⟩, ⟨6, 0, 6⟩, ⟨7, 0, 7⟩, ⟨524288, 2, 0⟩] := by
+  decide
+
+end IndexPosition
+
 /-! ## the property does not hold for the three-step structure -/
 
 namespace Neg
@@ -937,6 +1047,31 @@ theorem current_has_no_window :
     (QueueMeta.mrun QueueMeta.currentProgs (QueueMeta.MSt.start 2 (-1))
       [.call 0 .reset 10, .step 0, .step 0, .step 0, .step 0, .call 1 .put 0, .step 1]).isNone = true := by
   decide
+
+/-- c05-25's shape — switch only when the slot wraps to 0 ("sequences grow by one"): three appends,
+`SetAppendedSeq(300000)`, one append: the item of sequence 300001 goes into page 0 (held object),
+Get looks in page 1 -/
+theorem wrap_only_switch_witness :
+    (IndexPos.runPos indexItemsPerPage IndexPos.wrapSw (IndexPos.initPos indexItemsPerPage (-1))
+      [.put, .put, .put, .reset 300000, .put]).2.getLast? = some ⟨300001, 0, 37857⟩ := by decide
+
+/-- hence "every item lands in its own page" is false for that test, and likewise for the
+forward-only test (c05-23's shape): both are instances of the characterisation -/
+theorem wrap_only_switch_fails :
+    ¬ (∀ ops : List IndexPos.POp, (∀ op ∈ ops, op.wf) →
+        IndexPos.LandsRight indexItemsPerPage
+          (IndexPos.runPos indexItemsPerPage IndexPos.wrapSw (IndexPos.initPos indexItemsPerPage (-1)) ops).2) := by
+  intro h
+  have := (index_switch_exact indexItemsPerPage (by decide) IndexPos.wrapSw).mp h 1 0 1 (by decide) (by decide)
+  simp [IndexPos.wrapSw] at this
+
+theorem forward_only_switch_fails :
+    ¬ (∀ ops : List IndexPos.POp, (∀ op ∈ ops, op.wf) →
+        IndexPos.LandsRight indexItemsPerPage
+          (IndexPos.runPos indexItemsPerPage IndexPos.greaterSw (IndexPos.initPos indexItemsPerPage (-1)) ops).2) := by
+  intro h
+  have := (index_switch_exact indexItemsPerPage (by decide) IndexPos.greaterSw).mp h 0 1 5 (by decide) (by decide)
+  simp [IndexPos.greaterSw] at this
 
 end Neg
 
